@@ -85,8 +85,10 @@ func verifNewClient(tag string, id string, grants []oidc.GrantType, nmethods int
 	nd.Assume(ok)
 	c.authMethod = oidc.AuthMethod(m)
 	t := nd.Int(tag+".apptype", 0, 2)
-	// public clients are user-agent or native applications, confidential ones are web applications
-	nd.Assume(nd.Or(nd.And(m == string(oidc.AuthMethodNone), t != 0), nd.And(m != string(oidc.AuthMethodNone), t == 0)))
+	if nd.Param("coupledapptype", 0) == 1 {
+		// public clients are user-agent or native applications, confidential ones are web applications
+		nd.Assume(nd.Or(nd.And(m == string(oidc.AuthMethodNone), t != 0), nd.And(m != string(oidc.AuthMethodNone), t == 0)))
+	}
 	c.appType = ApplicationType(t)
 	for i, g := range grants {
 		r := nd.Str(tag + ".grant")
